@@ -37,6 +37,8 @@ type FakeStream[T proto.Message] struct {
 	mu     sync.Mutex
 	// EndedAt is when the stream's context was cancelled (by the plan or by the client)
 	EndedAt time.Time
+	// FailedAt is when the first Send failed
+	FailedAt time.Time
 }
 
 // End cancels the stream context and remembers when.
@@ -99,6 +101,9 @@ func (s *FakeStream[T]) Send(m T) error {
 		s.mu.Lock()
 		first := !s.Failed
 		s.Failed = true
+		if first {
+			s.FailedAt = time.Now()
+		}
 		s.mu.Unlock()
 		if first {
 			s.log("send#%d fails: %s", idx, s.Plan.FailErr)
